@@ -1,28 +1,63 @@
 /-
-Driver/C03.lean — line-protocol driver for the CTE-chain model.
-in : {"case": n, "prog": Prog}
-out: the chain the model builds (names, refs), the open block's refs, whether the freshness
-     hypotheses `Prog.OK` hold for the supplied names.
+Driver/C03.lean — line-protocol driver for the CTE-chain model and the aggregate-route model.
+in : {"case": n, "prog": Prog}            out: the chain the model builds (names, refs), the open block's refs, whether
+                                               the freshness hypotheses `Prog.OK` hold for the supplied names
+     {"case": n, "agg": {keys, route}}    out: the items the route hands to `agg` (function, node, alias), whether the
+                                               block is kept apart (`innerRefuses (aggBlock keys items)`), the functions
+                                               emitted as nodes sqlglot cannot recognise, the violated scope hypotheses
+     {"case": n, "block": InnerBlock}     out: `innerRefuses` of a block as observed on the real tree
+     {"case": n, "tables": true}          out: the generated tables (exercised against the running code by the check)
 -/
 import SqlframeModel.Codec.C03
 open Lean Sqlframe
 
 structure Case where
   case : Nat
-  prog : Prog
+  prog : Option Prog := none
+  agg : Option AggCase := none
+  block : Option InnerBlock := none
+  tables : Option Bool := none
   deriving FromJson
 
 def handle (line : String) : String :=
   match Json.parse line >>= fromJson? (α := Case) with
   | .error e => Json.compress (Json.mkObj [("err", toJson s!"bad-input: {e}")])
   | .ok c =>
-    let d := c.prog.build
-    Json.compress (Json.mkObj [
-      ("case", toJson c.case),
-      ("names", toJson (cnames d.ctes)),
-      ("refs", toJson (d.ctes.map (·.refs))),
-      ("open", toJson d.open_),
-      ("ok", toJson (decide c.prog.OK))])
+    match c.prog, c.agg, c.block with
+    | some p, _, _ =>
+      let d := p.build
+      Json.compress (Json.mkObj [
+        ("case", toJson c.case),
+        ("names", toJson (cnames d.ctes)),
+        ("refs", toJson (d.ctes.map (·.refs))),
+        ("open", toJson d.open_),
+        ("ok", toJson (decide p.OK))])
+    | none, some a, _ =>
+      match a.route.items with
+      | none => Json.compress (Json.mkObj [("case", toJson c.case), ("noRoute", toJson true)])
+      | some items =>
+        Json.compress (Json.mkObj [
+          ("case", toJson c.case),
+          ("items", Json.arr (items.map itemJson).toArray),
+          ("refuses", toJson (innerRefuses (aggBlock a.keys items))),
+          ("block", toJson (aggBlock a.keys items)),
+          ("opaque", toJson (opaqueFns items)),
+          ("violated", toJson (violatedC03Agg items))])
+    | none, none, some b =>
+      Json.compress (Json.mkObj [("case", toJson c.case), ("refuses", toJson (innerRefuses b))])
+    | none, none, none =>
+      if c.tables == some true then
+        Json.compress (Json.mkObj [
+          ("case", toJson c.case),
+          ("fnNodeTable", Json.arr (Gen.fnNodeTable.map (fun p => Json.arr #[toJson p.1, nodeJson (some p.2)])).toArray),
+          ("aggFuncClasses", toJson Gen.aggFuncClasses),
+          ("mergeBarrierClasses", toJson Gen.mergeBarrierClasses),
+          ("unmergeableArgs", toJson Gen.unmergeableArgs),
+          ("byNameShortcuts", toJson (Gen.byNameShortcuts.map (fun p => [p.1, p.2]))),
+          ("byNameLowers", toJson Gen.byNameLowers),
+          ("anonymousUppers", toJson Gen.anonymousUppers),
+          ("count", toJson [Gen.groupCountFn, Gen.groupCountArg, Gen.groupCountAlias])])
+      else Json.compress (Json.mkObj [("err", toJson "bad-input: no prog / agg / block / tables")])
 
 partial def loop (h : IO.FS.Stream) (out : IO.FS.Stream) : IO Unit := do
   let line ← h.getLine
